@@ -106,7 +106,10 @@ func genOIDCDoc(c *sim.Case, role int) doc {
 		d["client_secret"] = "s"
 		d["client_secret_ref"] = doc{"name": "n"}
 	}
-	c17Field(c, d, "scopes", 3, 3, 1, []any{[]any{"openid"}, []any{"email"}, []any{"email", "profile"}, []any{"email", "openid", "openid"}}, []any{[]any{}, []any{""}, []any{"OPENID"}})
+	c17Field(c, d, "scopes", 3, 3, 1, []any{[]any{"openid"}, []any{"email"}, []any{"email", "profile"}, []any{"email", "openid", "openid"},
+		// values that merely contain, or resemble, the scope that has to be there
+		[]any{"openid_groups"}, []any{"https://idp.test/scopes/openid.groups", "email"}, []any{"myopenid"}, []any{"openid profile"}, []any{"OpenID", "email"}},
+		[]any{[]any{}, []any{""}, []any{"OPENID"}})
 	c17Field(c, d, "cookie_name_prefix", 4, 1, 1, []any{"p", "my-app"}, []any{"", "a;b", " "})
 	c17Field(c, d, "id_token", wo, wv, wd*2, []any{doc{"header": "authorization", "preamble": "Bearer"}, doc{"header": "x-id-token"}},
 		[]any{doc{"header": ""}, doc{"preamble": "Bearer"}, doc{}})
